@@ -462,29 +462,50 @@ def impl_dechunk(wire: bytes, ops, rng, fails: list, stream=None):
     res = []
     got = b""
     err = None
+    class _Bad(Exception):
+        pass
+
+    def rd(n):
+        """io.RawIOBase.read(n) spelled out in Python: the C implementation copies `k` bytes out of the bytearray's
+        storage whatever its length, so a readinto that shrinks the buffer or over-reports would crash the checker"""
+        buf = bytearray(b"\xee" * n)
+        k = stream.readinto(memoryview(buf) if rng.random() < 0.5 else buf)
+        if len(buf) != n:
+            fails.append(("buffer-resized", f"readinto changed the caller's buffer length from {n} to {len(buf)} (returned {k})"))
+            raise _Bad()
+        if not isinstance(k, int) or k < 0 or k > n:
+            fails.append(("garbage-delivered", f"readinto reported {k!r} bytes for a buffer of {n}"))
+            raise _Bad()
+        return bytes(buf[:k])
     for o in ops:
         f = o.split(":")
         try:
             if f[0] == "r":
-                n = int(f[1])
-                how = rng.randrange(3)
-                if how == 0:
-                    d = stream.read(n)
-                else:
-                    buf = bytearray(b"\xee" * n)
-                    k = stream.readinto(memoryview(buf) if how == 1 else buf)
-                    if len(buf) != n:
-                        fails.append(("buffer-resized", f"readinto changed the caller's buffer length from {n} to {len(buf)}"))
-                    d = bytes(buf[:k])
-            elif f[0] == "a":
-                d = stream.read()
-            else:
-                d = stream.readline()
+                d = rd(int(f[1]))
+            elif f[0] == "a":                       # RawIOBase.readall(): read(DEFAULT_BUFFER_SIZE) until empty
+                d = b""
+                while True:
+                    x = rd(io.DEFAULT_BUFFER_SIZE)
+                    if not x:
+                        break
+                    d += x
+            else:                                   # IOBase.readline() without peek(): read(1) until LF or end
+                d = b""
+                while True:
+                    x = rd(1)
+                    if not x:
+                        break
+                    d += x
+                    if x == b"\n":
+                        break
         except OSError:
             err = "OS"
             break
         except ImplTimeout:
             raise
+        except _Bad:
+            err = "BadReadinto"
+            break
         except Exception as e:  # noqa: BLE001
             err = type(e).__name__
             break
@@ -495,7 +516,7 @@ def impl_dechunk(wire: bytes, ops, rng, fails: list, stream=None):
         res.append("!" + err)
     # ---------------- the property
     deliverable, complete, tail_len = ref_dechunk(wire)
-    if err not in (None, "OS"):
+    if err not in (None, "OS", "BadReadinto"):
         fails.append(("unrelated-exception", f"{type(stream).__name__} raised {err} instead of an I/O error"))
     if not deliverable.startswith(got):
         key = "garbage-delivered" if complete or len(got) > len(deliverable) or not got.startswith(deliverable) else "malformed-accepted"
@@ -509,13 +530,9 @@ def impl_dechunk(wire: bytes, ops, rng, fails: list, stream=None):
         fails.append(("body-truncated", f"complete read delivered {got!r} of {deliverable!r}"))
     if drained and complete and raw is not None and len(wire) - rfile.tell() != tail_len:
         fails.append(("cursor", f"{len(wire) - rfile.tell()} bytes left after the final chunk, expected {tail_len}"))
-    if err == "OS" and complete and len(got) <= len(deliverable) and sum(1 for _ in ops) and _covers_only_wellframed(ops):
+    if err == "OS" and complete:
         fails.append(("wellframed-rejected", f"OSError on a well-framed body after {got!r}"))
     return "|".join(res), got, err
-
-
-def _covers_only_wellframed(ops):
-    return True
 
 
 # ====================================================================== harness: the whole handler over a socket pair
@@ -824,6 +841,11 @@ def run(chk: Check) -> None:
                 want_v = re.match(r"(?i)https?://([^/?#]*)", tgt).group(1)
             if env.get(ek) != want_v:
                 bad("header-lost", f"{ek} = {env.get(ek)!r}, the client sent {want_v!r}")
+        want_keys = {(k if k in ("CONTENT_TYPE", "CONTENT_LENGTH") else "HTTP_" + k) for k in by_name}
+        got_keys = {k for k in env if k.startswith("HTTP_") or k in ("CONTENT_TYPE", "CONTENT_LENGTH")}
+        if got_keys - want_keys - ({"HTTP_HOST"} if re.match(r"(?i)https?://", tgt) else set()):
+            bad("header-unexpected", f"environ carries {sorted(got_keys - want_keys)!r}, which no header the client sent maps to "
+                                     "(names with an underscore must be dropped: they would alias dashed names)")
         if rq["body_kind"] in ("cl", "chunked") and seen.get("body") is not None:
             drained = rq["body_kind"] == "cl" or (dops and dops[-1] == "a" and not seen.get("dc_err"))
             if not rq["body"].startswith(seen["body"]) or (drained and seen["body"] != rq["body"]):
